@@ -498,6 +498,57 @@ func (c *Ctx) authHelpers() map[*ssa.Function]bool {
 	return auth
 }
 
+// boolAuthHelper: f is a module function with a single bool result every `true` of which implies a positive permission
+// check: each returned value is the constant false, the checker's answer itself, the answer of another such helper, or the
+// constant true below an edge that establishes a positive check.
+func (c *Ctx) boolAuthHelper(f *ssa.Function, auth map[*ssa.Function]bool, succ int64, depth int) bool {
+	if f == nil || depth > 2 || !prog.InModule(f) || f.Blocks == nil || f.Signature.Results().Len() != 1 {
+		return false
+	}
+	if b, ok := f.Signature.Results().At(0).Type().Underlying().(*types.Basic); !ok || b.Kind() != types.Bool {
+		return false
+	}
+	var okVal func(v ssa.Value, at ssa.Instruction, d int) bool
+	okVal = func(v ssa.Value, at ssa.Instruction, d int) bool {
+		if d > 4 {
+			return false
+		}
+		switch x := v.(type) {
+		case *ssa.Const:
+			if an.Term(x) == "false" {
+				return true
+			}
+			hit, _ := an.Cut(an.CutQuery{From: an.Entry(f), Target: func(i ssa.Instruction) bool { return i == at },
+				AcceptEdge: func(b *ssa.BasicBlock, i int, a *an.Atom) bool { return c.authAtom(a, auth, succ) }})
+			return hit == nil
+		case *ssa.Call:
+			if x.Call.IsInvoke() && namedIs(x.Call.Value.Type(), pkgChecker, "Service") && x.Call.Method.Name() == "Check" {
+				return true
+			}
+			return !x.Call.IsInvoke() && c.boolAuthHelper(x.Call.StaticCallee(), auth, succ, depth+1)
+		case *ssa.Phi:
+			for i, e := range x.Edges {
+				pred := x.Block().Preds[i]
+				if !okVal(e, pred.Instrs[len(pred.Instrs)-1], d+1) {
+					return false
+				}
+			}
+			return true
+		}
+		return false
+	}
+	rets := an.Returns(f)
+	if len(rets) == 0 {
+		return false
+	}
+	for _, ret := range rets {
+		if !okVal(an.Result(ret, 0), ret, 0) {
+			return false
+		}
+	}
+	return true
+}
+
 // authAtom: the edge establishes that the permission check answered yes.
 func (c *Ctx) authAtom(a *an.Atom, auth map[*ssa.Function]bool, succ int64) bool {
 	if a == nil {
@@ -505,6 +556,12 @@ func (c *Ctx) authAtom(a *an.Atom, auth map[*ssa.Function]bool, succ int64) bool
 	}
 	if a.Op == "true" {
 		if call, ok := a.LV.(*ssa.Call); ok && call.Call.IsInvoke() && namedIs(call.Call.Value.Type(), pkgChecker, "Service") && call.Call.Method.Name() == "Check" {
+			return true
+		}
+	}
+	if a.Op == "true" {
+		// a boolean access helper: `mayAccess(...)` is true only when the permission check answered yes
+		if call, ok := a.LV.(*ssa.Call); ok && !call.Call.IsInvoke() && c.boolAuthHelper(call.Call.StaticCallee(), auth, succ, 0) {
 			return true
 		}
 	}
